@@ -1061,3 +1061,60 @@ Qed.
 Theorem unber_total bs : bytes_ok bs ->
   exists ls x, unber bs = (ls, x) /\ (x = XOk \/ exists d, x = XFail d).
 Proof. intros H. apply unber_loop_total; [lia|exact H]. Qed.
+
+(* every header process_deeper accepts fits tagbuf[32] and has at least two
+   octets: the reads of tagbuf[0], tagbuf[1] and all writes are in range *)
+Theorem read_tl_tagbuf limit eoc inp off tagbuf tag len tn ln inp1 off1 :
+  bytes_ok inp ->
+  read_tl limit eoc [] inp off = ROk tagbuf tag len tn ln inp1 off1 ->
+  2 <= zlen tagbuf <= 32 /\ zlen tagbuf = Z.of_nat tn + Z.of_nat ln /\
+  inp = tagbuf ++ inp1 /\ off1 = off + zlen tagbuf /\ (0 <= limit -> zlen tagbuf <= limit).
+Proof.
+  intros Hb Er.
+  destruct (read_tl_inv _ _ _ _ _ _ _ _ _ _ _ _ Er) as (suf & -> & Htb & Hne & -> & H32 & Hlt & Hlen & Hft & Hfl).
+  cbn [app] in Htb. subst tagbuf.
+  apply bytes_ok_app in Hb. destruct Hb as [Hb1 Hb2].
+  pose proof (fetch_tag_consumed _ _ _ Hft) as Htn.
+  destruct (fetch_length_consumed _ _ _ _ (bytes_ok_skipn tn suf Hb1) Hfl) as [Hln Hrange].
+  unfold zlen in *. repeat split; try assumption; lia.
+Qed.
+
+(* ------------------------------------------------------------------ *)
+(* 8. the full property (all well-formed BER) is false of the tools *)
+
+Theorem xxber_inverse_refuted :
+  exists tag body k,
+    tag_ok tag /\ bytes_ok body /\ (1 <= k <= 126)%nat /\ zlen body < 256 ^ Z.of_nat k /\
+    let x := tag_serialize tag ++ long_len k (zlen body) ++ body in
+    unber x = ([LPrim 0 0 tag (zlen (tag_serialize tag) + 1 + Z.of_nat k) (zlen body) body], XOk) /\
+    xxber x = ([], Some ECannotEncodeTL).
+Proof.
+  exists 16, [0], 1%nat.
+  split; [unfold tag_ok, two30; split; [lia|reflexivity]|].
+  split; [repeat constructor; unfold byte_ok; lia|].
+  split; [lia|]. split; [reflexivity|].
+  split; vm_compute; reflexivity.
+Qed.
+
+(* identifier octets of tag number 2^30 (X.690 8.1.2.4), empty contents *)
+Theorem xxber_tag_limit_refuted :
+  unber (31 :: mark_cont (digits 128 5 two30) ++ [0]) = ([], XFail (DTagErr 5)).
+Proof. vm_compute. reflexivity. Qed.
+
+(* non-vacuity: a document mixing classes, long tags, definite and indefinite lengths *)
+Definition example_tree : ber_tree :=
+  Cons 64 false [Prim 16 [65; 0; 255]; Cons ((1000 * 4) + 2) true [Prim 0 []; Cons 67 false []]; Prim 0 [0]].
+
+Example example_wf : wf_tree example_tree false.
+Proof.
+  unfold example_tree. cbn [wf_tree allP negb].
+  repeat split; try (unfold two30; cbn; lia); try (repeat constructor; unfold byte_ok; lia);
+    try (intros _; vm_compute; discriminate); try (intros _ [H1 H2]; discriminate); try discriminate.
+Qed.
+
+Example example_run :
+  ser example_tree = [48; 128; 4; 3; 65; 0; 255; 191; 135; 104; 6; 0; 0; 240; 128; 0; 0; 0; 1; 0; 0; 0] /\
+  xxber (ser example_tree) = (ser example_tree, None) /\
+  opens (fst (unber (ser example_tree))) =
+    [(0, 64, 2, -1); (2, 16, 2, 3); (7, 4002, 4, 6); (11, 0, 2, 0); (13, 67, 2, -1); (17, 0, 2, 1)].
+Proof. vm_compute. repeat split; reflexivity. Qed.
